@@ -60,7 +60,7 @@ def world(ctx, wrap=True):
     shim = ctx.build_ir('l3_world.cpp', 'cut', extra=ext)
     msg = ctx.build_ir(REPO + '/runtime/message.cpp', 'cut', extra=['-DFIX8_MAX_FLD_LENGTH=%d' % FLD])
     ll = ctx.link_ir([shim, msg], 'l3all')
-    opts = ['--typed-alloc', '--ptrcmp', '--ptrdiff']
+    opts = ['--typed-alloc', '--ptrcmp', '--ptrdiff', '--ptrdiff0']
     for w in (M_BFENC, M_EXT, M_EXTFW): opts += ['--wrap', w]
     info = ctx.translate(ll, ROOTS, 'l3w.c', stubs={M_CTX: 'st_ctx_ctor', 'strlen': 'st_strlen', M_FNCALL: 'st_fn_msg_call'}, stubfiles=['common.stubs'], models=['cxx.c', 'stubs.c', 'l3_env.c'], opts=opts,
                          provided=['gmtime_r'])
@@ -116,7 +116,7 @@ SHAPES = {
     'all':     (1, [('b', 60, 'ts', 1, 0), ('b', 62, 'data', 1, 0), ('b', 61, 'cint', 1, 0), ('b', 43, 'bool', 0, 0), ('b', 38, 'int', 1, 0), ('b', 54, 'char', 0, 0), ('b', 11, 'str', 1, 0)] + hdr(order=[1, 3, 0, 2]), 0),
 }
 
-def us_main(n=12, cap=170): return ['main.%d:%d' % (i, cap + 2) for i in range(n)] + ['same_bytes.0:%d' % (cap + 2), 'l3_check_wire.0:8', 'l3_check_wire.1:%d' % (cap + 2)]
+def us_main(n=12, cap=170): return ['main.%d:%d' % (i, cap + 2) for i in range(n)] + ['same_bytes.0:%d' % (cap + 2), 'l3_check_wire.2:%d' % (cap + 2)]
 
 def harness(ctx, name, cfile, shape, defs=(), *, functions=(), desc='', tier='quick', timeout=900, cap=170, extra_bounds=''):
     msg, fields, nel = SHAPES[shape]
@@ -204,3 +204,26 @@ def wire_problem(e1, shape, c):
 def short(out, n=400):
     keep = [l for l in out.splitlines() if l.startswith(('RESULT', '==', 'SUMMARY', 'COUNTS')) or 'runtime error' in l]
     return (' | '.join(keep) or out.strip()[-n:].replace('\n', ' | '))[:n]
+
+# ------------------------------------------------------------------ C02: ordering clause (usable from props/C02.py)
+ORDER_QUICK = ['basic_r', 'group1']
+ORDER_THOROUGH = ORDER_QUICK + ['all', 'group2', 'tsdata', 'hb']
+def add_order_harnesses(ctx, defs=()):
+    """C02 "ordering" harnesses: the real encoder on one concrete shape (fields inserted in an order different from the schema's), symbolic values;
+    oracle = independent renderer over the ghost values (harness/l3_expect.h).  Returns the harnesses added; replay with l3.order_replay."""
+    world(ctx)
+    out = []
+    for shape in (ORDER_QUICK if ctx.tier == 'quick' else ORDER_THOROUGH):
+        out.append(harness(ctx, 'C02_order_%s' % shape, 'C01_rt.c', shape, list(defs) + ['C02_ORDER', 'ENCODE_ONLY'], functions=FUN_ENC, timeout=900,
+                           desc='wire format of encode(m): 8, 9, 35 first; BodyLength exact; CheckSum = byte sum mod 256, three digits; every field tag=value<SOH>; header < body < trailer; '
+                                'schema position order regardless of insertion order; group = count then elements each starting with the group\'s first field'))
+    ctx.assumptions += ['ordering harnesses: schemas/mini.xml compiled by the f8c of the tree under test; schema positions of the oracle are those of the mini schema (checked natively by the replay driver against the generated classes)']
+    return out
+
+def order_replay(ctx, cx, h=None):
+    c = cx.get('cx', cx); shape = h.shape if h is not None else c.get('shape')
+    rc, out = run_replay(ctx, 'rt', cx_args(c, shape))
+    e1 = next((bytes.fromhex(l.split()[1]) for l in out.splitlines() if l.startswith('E1 ')), None)
+    if e1 is None: return rc != 0, 'shape %s: %s' % (shape, short(out))
+    w = wire_problem(e1, shape, c)
+    return w is not None, 'shape %s: %s (%r)' % (shape, w or 'wire format as required', e1.replace(b'\x01', b'|'))
